@@ -175,7 +175,15 @@ pub fn run_c09_b(ctx: &Ctx) -> Outcome {
         let session = match connect(&cluster, |b| b.compression(client_comp)).await {
             Ok(s) => s,
             Err(e) => {
-                o.inconclusive(format!("C09 part b could not start: {e}"));
+                // what the node saw is judged all the same (a session that cannot be built because its frames are malformed)
+                let seen = cluster.log().violations();
+                for v in &seen {
+                    o.node_violation("c09b", &v, json!({"part": "b", "world": wname, "session_build": e}));
+                }
+                if seen.is_empty() {
+                    o.inconclusive(format!("C09 part b could not start ({wname}): {e}"));
+                }
+                cluster.shutdown();
                 return;
             }
         };
@@ -350,7 +358,7 @@ pub fn run_c09_b(ctx: &Ctx) -> Outcome {
             }
         }
         for v in cluster.log().violations() {
-            o.violation("c09b:malformed-frame-seen-by-node", v, json!({"part": "b", "world": wname}));
+            o.node_violation("c09b", &v, json!({"part": "b", "world": wname}));
         }
         // with compression negotiated the node must actually have seen compressed request frames
         if client_comp.is_some() && !no_lz4 && !no_snappy {
@@ -485,7 +493,7 @@ pub fn run_c18_b(ctx: &Ctx) -> Outcome {
         o.note("explicit_timestamps_observed", json!(explicit.len()));
         o.sample(json!({"tasks": tasks, "per_task": per, "generated": generated.len(), "first": generated.first().map(|x| x.0), "last": generated.last().map(|x| x.0)}));
         for v in cluster.log().violations() {
-            o.violation("c18b:malformed-frame-seen-by-node", v, json!({"part": "b"}));
+            o.node_violation("c18b", &v, json!({"part": "b"}));
         }
         cluster.shutdown();
     });
@@ -731,7 +739,7 @@ pub fn run_c19_c(ctx: &Ctx) -> Outcome {
                 }
             }
             for v in cluster.log().violations() {
-                o.violation("c19c:malformed-frame-seen-by-node", v, json!({"part": "c"}));
+                o.node_violation("c19c", &v, json!({"part": "c"}));
             }
             let _ = Ev::Note(String::new());
             drop(session);
